@@ -1104,14 +1104,16 @@ theorem rounds_ok {Γ : Ctx} {n : Nat} {a pat step : Ast} {idx : Nat} {Δ : Env}
     (hkp : a.kid 0 = some pat) (hks : a.kid idx = some step)
     (hp : DEOk Γ n pat) (hst : VOk Γ n .S step)
     (hg0 : GoodSt s0) (h0lv : ∀ x t l, view s0.locals x = some (t, l) → 1 ≤ l) (hr0 : Rel Γ s0 Δ) :
-    ∀ (k : Nat) (it τ : Ty) (s s' : St),
-      recursionRounds (visit Γ n) a idx k it s = (.ok (some τ), s') → Ext s0 s → (CtxOk Γ → CleanTy Γ it) →
-      StepReach Γ Δ pat step it τ ∧ (CtxOk Γ → CleanTy Γ τ) ∧
-        ∃ Δτ, Binds Δ pat τ Δτ ∧ HasType Γ Δτ step (.ty τ) ∧ Rel Γ s' Δτ ∧ Ext s0 s'
-  | 0, it, τ, s, s', h, _, _ => by
+    ∀ (k : Nat) (vt τ : Ty) (s s' : St),
+      recursionRounds Γ.traits (visit Γ n) a idx k vt s = (.ok (some τ), s') → Ext s0 s →
+      (CtxOk Γ → CleanTy Γ vt) →
+      StepReach Γ Δ pat step vt τ ∧ (CtxOk Γ → CleanTy Γ τ) ∧
+        ∃ Δτ tτ, Binds Δ pat τ Δτ ∧ HasType Γ Δτ step (.ty tτ) ∧ merge Γ.traits tτ τ = some τ ∧
+          Rel Γ s' Δτ ∧ Ext s0 s'
+  | 0, vt, τ, s, s', h, _, _ => by
     unfold recursionRounds at h
     have := (pure_ok h).1; cases this
-  | k+1, it, τ, s, s', h, he, hct => by
+  | k+1, vt, τ, s, s', h, he, hct => by
     unfold recursionRounds at h
     obtain ⟨_, sc, h1, g1⟩ := bind_ok h
     obtain ⟨hvc, hfc⟩ := clearLocals_spec h1 (he.2.uniq hg0.2.2.2) h0lv he.1
@@ -1123,17 +1125,24 @@ theorem rounds_ok {Γ : Ctx} {n : Nat} {a pat step : Ast} {idx : Nat} {Δ : Env}
     obtain ⟨nt, s3, h4, g4⟩ := bind_ok g3
     obtain ⟨rfl, rfl⟩ := expectTy_ok' h4
     have he2 : Ext s0 s2 := (m0c.ext.trans e1).trans m3.ext
-    by_cases heq : (nt == it) = true
-    · simp only [heq, if_true] at g4
-      obtain ⟨e, rfl⟩ := pure_ok g4
-      cases e
-      have : nt = it := by simpa using heq
-      subst this
-      exact ⟨StepReach.refl, hct, Δit, b, i3, r1.of_same m3, he2⟩
-    · simp only [heq, Bool.false_eq_true, if_false] at g4
-      obtain ⟨sr, cτ, Δτ, bτ, iτ, rτ, eτ⟩ :=
-        rounds_ok hkp hks hp hst hg0 h0lv hr0 k nt τ s2 s' g4 he2 (fun hx => c3 hx)
-      exact ⟨StepReach.step b i3 sr, cτ, Δτ, bτ, iτ, rτ, eτ⟩
+    cases hm : merge Γ.traits nt vt with
+    | none =>
+      simp only [hm] at g4
+      have := (pure_ok g4).1; cases this
+    | some nv =>
+      simp only [hm] at g4
+      by_cases heq : (nv == vt) = true
+      · simp only [heq, if_true] at g4
+        obtain ⟨e, rfl⟩ := pure_ok g4
+        cases e
+        have : nv = vt := by simpa using heq
+        subst this
+        exact ⟨StepReach.refl, hct, Δit, nt, b, i3, hm, r1.of_same m3, he2⟩
+      · simp only [heq, Bool.false_eq_true, if_false] at g4
+        obtain ⟨sr, cτ, Δτ, tτ, bτ, iτ, mτ, rτ, eτ⟩ :=
+          rounds_ok hkp hks hp hst hg0 h0lv hr0 k nv τ s2 s' g4 he2
+            (fun hx => idsIn_merge _ _ _ _ hm (c3 hx) (hct hx))
+        exact ⟨StepReach.step b i3 hm sr, cτ, Δτ, tτ, bτ, iτ, mτ, rτ, eτ⟩
 
 /-- `ViRecursion` with the two things that depend on the token as parameters -/
 def recBody (Γ : Ctx) (v : Visitor) (a : Ast) (isFull : Bool) (idx : Nat) : M Unit :=
@@ -1148,17 +1157,18 @@ def recBody (Γ : Ctx) (v : Visitor) (a : Ast) (isFull : Bool) (idx : Nat) : M U
     M.bind (kidM a idx) fun k => errFail EID.typesNotEqual k.lo
   | some true =>
     M.bind (expectTy "ViRecursion" itR) fun it0 =>
+    match merge Γ.traits it0 initT with
+    | none => M.bind (kidM a idx) fun k => errFail EID.typesNotEqual k.lo
+    | some vt0 =>
     M.bind (modifySt fun s => { s with noWarn := s.noWarn + 1 }) fun _ =>
-    M.bind (recursionRounds v a idx typeDeductionDepth it0) fun stable =>
+    M.bind (recursionRounds Γ.traits v a idx typeDeductionDepth vt0) fun stable =>
     M.bind (modifySt fun s => { s with noWarn := s.noWarn - 1 }) fun _ =>
     match stable with
     | none => M.bind (kidM a idx) fun k => errFail EID.typesNotEqual k.lo
-    | some it =>
+    | some vt =>
     M.bind (if isFull then visitChild v a 2 else M.pure ()) fun _ =>
     M.bind (endScope a.lo) fun _ =>
-    match merge Γ.traits it initT with
-    | none => M.bind (kidM a idx) fun k => errFail EID.typesNotEqual k.lo
-    | some m => setCur (.ty m)
+    setCur (.ty vt)
 
 theorem viRecursion_eq (Γ : Ctx) (v : Visitor) (a : Ast) :
     viRecursion Γ v a = recBody Γ v a (a.id == .NT_RECURSIVE_FULL) (if a.id == .NT_RECURSIVE_FULL then 3 else 2) := rfl
@@ -1169,10 +1179,11 @@ theorem recBody_spec {Γ : Ctx} {n : Nat} {a pat init step cond : Ast} {isFull :
     (hkc : isFull = true → a.kid 2 = some cond)
     (hp : DEOk Γ n pat) (hin : VOk Γ n .S init) (hst : VOk Γ n .S step) (hc : isFull = true → VOk Γ n .L cond)
     (h : recBody Γ (visit Γ n) a isFull idx s = (.ok (), s')) (hg : GoodSt s) (hr : Rel Γ s Δ) :
-    ∃ t0 t1 τ m Δ0 Δτ, HasType Γ Δ init (.ty t0) ∧ Binds Δ pat t0 Δ0 ∧ HasType Γ Δ0 step (.ty t1) ∧
-      compat Γ.traits t1 t0 = true ∧ StepReach Γ Δ pat step t1 τ ∧ Binds Δ pat τ Δτ ∧
-      HasType Γ Δτ step (.ty τ) ∧ (isFull = true → HasType Γ Δτ cond .logic) ∧
-      merge Γ.traits τ t0 = some m ∧ s'.cur = .ty m ∧ Same s s' ∧ (CtxOk Γ → CleanTy Γ m) := by
+    ∃ t0 t1 v0 τ tτ Δ0 Δτ, HasType Γ Δ init (.ty t0) ∧ Binds Δ pat t0 Δ0 ∧ HasType Γ Δ0 step (.ty t1) ∧
+      compat Γ.traits t1 t0 = true ∧ merge Γ.traits t1 t0 = some v0 ∧ StepReach Γ Δ pat step v0 τ ∧
+      Binds Δ pat τ Δτ ∧ HasType Γ Δτ step (.ty tτ) ∧ merge Γ.traits tτ τ = some τ ∧
+      (isFull = true → HasType Γ Δτ cond .logic) ∧
+      s'.cur = .ty τ ∧ Same s s' ∧ (CtxOk Γ → CleanTy Γ τ) := by
   unfold recBody at h
   obtain ⟨_, s0, h0, g0⟩ := bind_ok h
   obtain ⟨hg0, hr0⟩ := startScope_spec h0 hg hr
@@ -1206,6 +1217,10 @@ theorem recBody_spec {Γ : Ctx} {n : Nat} {a pat init step cond : Ast} {isFull :
       obtain ⟨it0, sC', hC', gC'⟩ := bind_ok gC
       obtain ⟨e, rfl⟩ := expectTy_ok' hC'
       cases e
+      cases hm0 : merge Γ.traits t1 t0 with
+      | none => simp only [hm0] at gC'; exact absurd gC' kidErr_ok
+      | some v0 =>
+      simp only [hm0] at gC'
       obtain ⟨_, sD, hD, gD⟩ := bind_ok gC'
       have mD : Same sC sD := noWarn_same hD rfl rfl rfl rfl rfl
       obtain ⟨stable, sE, hE, gE⟩ := bind_ok gD
@@ -1215,8 +1230,9 @@ theorem recBody_spec {Γ : Ctx} {n : Nat} {a pat init step cond : Ast} {isFull :
       | none => exact absurd gF kidErr_ok
       | some τ =>
         simp only [] at gF
-        obtain ⟨sr, cτ, Δτ, bτ, iτ, rE, eE⟩ :=
-          rounds_ok hkp hks hp hst hg0 h0lv hr0 _ _ _ _ _ hE (e0C.trans mD.ext) (fun hx => cC hx)
+        obtain ⟨sr, cτ, Δτ, tτ, bτ, iτ, mτ, rE, eE⟩ :=
+          rounds_ok hkp hks hp hst hg0 h0lv hr0 _ _ _ _ _ hE (e0C.trans mD.ext)
+            (fun hx => idsIn_merge _ _ _ _ hm0 (cC hx) (cA hx))
         obtain ⟨_, sG, hG, gG⟩ := bind_ok gF
         have e0F : Ext s0 sF := eE.trans mF.ext
         have hcond : (isFull = true → HasType Γ Δτ cond .logic) ∧ Same sF sG := by
@@ -1235,16 +1251,12 @@ theorem recBody_spec {Γ : Ctx} {n : Nat} {a pat init step cond : Ast} {isFull :
             exact ⟨fun _ => hl rfl ▸ ic, mc⟩
         obtain ⟨_, sH, hH, gH⟩ := bind_ok gG
         obtain ⟨hvH, hfH, _⟩ := endScope_ok hH
-        cases hm : merge Γ.traits τ t0 with
-        | none => simp only [hm] at gH; exact absurd gH kidErr_ok
-        | some m =>
-          simp only [hm] at gH
-          obtain ⟨hcur, mI⟩ := setCur_ok' gH
-          have e0G : Ext s0 sG := e0F.trans hcond.2.ext
-          have msH : Same s sH :=
-            ⟨scope_close (s0 := s0) (s3 := sG) hg.2.2.1 hv0 e0G.1 hvH, (hf0.trans e0G.2).trans hfH⟩
-          exact ⟨t0, t1, τ, m, Δ0, Δτ, iA, b0, iC, hcm, sr, bτ, iτ, hcond.1, hm, hcur, msH.trans mI,
-            fun hx => idsIn_merge _ _ _ _ hm (cτ hx) (cA hx)⟩
+        obtain ⟨hcur, mI⟩ := setCur_ok' gH
+        have e0G : Ext s0 sG := e0F.trans hcond.2.ext
+        have msH : Same s sH :=
+          ⟨scope_close (s0 := s0) (s3 := sG) hg.2.2.1 hv0 e0G.1 hvH, (hf0.trans e0G.2).trans hfH⟩
+        exact ⟨t0, t1, v0, τ, tτ, Δ0, Δτ, iA, b0, iC, hcm, hm0, sr, bτ, iτ, mτ, hcond.1, hcur,
+          msH.trans mI, cτ⟩
 
 theorem recShort_ok {Γ : Ctx} {n : Nat} {d : TokData} {lo hi : Int} {pat init step : Ast}
     (hp : DEOk Γ n pat) (hin : VOk Γ n .S init) (hst : VOk Γ n .S step) :
@@ -1253,9 +1265,9 @@ theorem recShort_ok {Γ : Ctx} {n : Nat} {d : TokData} {lo hi : Int} {pat init s
   change viRecursion Γ (visit Γ n) (.node .NT_RECURSIVE_SHORT d lo hi [pat, init, step]) s = _ at h
   rw [viRecursion_eq] at h
   have h' : recBody Γ (visit Γ n) (.node .NT_RECURSIVE_SHORT d lo hi [pat, init, step]) false 2 s = (.ok (), s') := h
-  obtain ⟨t0, t1, τ, m, Δ0, Δτ, iA, b0, iC, hcm, sr, bτ, iτ, _, hm, hcur, msame, cm⟩ :=
+  obtain ⟨t0, t1, v0, τ, tτ, Δ0, Δτ, iA, b0, iC, hcm, hm0, sr, bτ, iτ, mτ, _, hcur, msame, cm⟩ :=
     recBody_spec (cond := pat) kid0 kid1 kid2 (fun hf => by cases hf) hp hin hst (fun hf => by cases hf) h' hg hr
-  exact ⟨hcur ▸ HasType.recShort iA b0 iC hcm sr bτ iτ hm, msame, notL, isTy hcur, cleanOf hcur cm⟩
+  exact ⟨hcur ▸ HasType.recShort iA b0 iC hcm hm0 sr bτ iτ mτ, msame, notL, isTy hcur, cleanOf hcur cm⟩
 
 theorem kid3 {t d lo hi} {a b c e : Ast} {ks : List Ast} : (Ast.node t d lo hi (a :: b :: c :: e :: ks)).kid 3 = some e := rfl
 
@@ -1266,9 +1278,9 @@ theorem recFull_ok {Γ : Ctx} {n : Nat} {d : TokData} {lo hi : Int} {pat init co
   change viRecursion Γ (visit Γ n) (.node .NT_RECURSIVE_FULL d lo hi [pat, init, cond, step]) s = _ at h
   rw [viRecursion_eq] at h
   have h' : recBody Γ (visit Γ n) (.node .NT_RECURSIVE_FULL d lo hi [pat, init, cond, step]) true 3 s = (.ok (), s') := h
-  obtain ⟨t0, t1, τ, m, Δ0, Δτ, iA, b0, iC, hcm, sr, bτ, iτ, ic, hm, hcur, msame, cm⟩ :=
+  obtain ⟨t0, t1, v0, τ, tτ, Δ0, Δτ, iA, b0, iC, hcm, hm0, sr, bτ, iτ, mτ, ic, hcur, msame, cm⟩ :=
     recBody_spec kid0 kid1 kid3 (fun _ => kid2) hp hin hst (fun _ => hc) h' hg hr
-  exact ⟨hcur ▸ HasType.recFull iA b0 iC hcm sr bτ iτ (ic rfl) hm, msame, notL, isTy hcur, cleanOf hcur cm⟩
+  exact ⟨hcur ▸ HasType.recFull iA b0 iC hcm hm0 sr bτ iτ mτ (ic rfl), msame, notL, isTy hcur, cleanOf hcur cm⟩
 
 /-! ## term-function and predicate calls -/
 
